@@ -52,6 +52,13 @@ def run_step_profiles(res, spec, tier, seed, coq=True, use_cache=True):
         for v in r['violations']:
             if v['property'] != res.prop:
                 continue
+            if v['kind'].startswith('tie:'):
+                # a structural difference between the implementation's step and the model's (not by itself a failure of the property):
+                # the correspondence is broken for this property, the concrete history is kept with the artefact
+                if not [b for b in res.broken if b['name'].startswith('the step of the implementation is not the model')]:
+                    res.add_broken('correspondence', f"the step of the implementation is not the model's: {v['kind'][4:]} (profile {profile}, case {v['case']}, op {v['op']})",
+                                   {'profile': profile, 'case': v['case'], 'op': v['op'], 'seed': seed, 'n_ops': n_ops, 'detail': v['detail']})
+                continue
             sig = (v['kind'], json.dumps({k: v['detail'].get(k) for k in spec.get('known_keys', {}).get(v['kind'], [])}, sort_keys=True, default=str))
             if sig in seen:
                 res.notes.setdefault('violation_counts', {}).setdefault(v['kind'], 0)
@@ -78,7 +85,7 @@ def extended_search(res, spec, seed):
             r = stepmodel.run(s, 150, 40, profile, coq=False, use_cache=False)
             res.cov['evaluations'] += r['cases']
             for v in r['violations']:
-                if v['property'] == res.prop:
+                if v['property'] == res.prop and not v['kind'].startswith('tie:'):
                     res.add_found(v['kind'], v['detail'], {'engine': 'stepmodel', 'seed': s, 'profile': profile, 'case': v['case'], 'op': v['op'],
                                                             'n_ops': 40, 'kind': v['kind'], 'detail': v['detail']})
                     break
